@@ -257,3 +257,22 @@ Proof.
     rewrite map_map. induction m as [|g m IH]; [reflexivity|]. simpl. rewrite Hi. simpl. exact IH. }
   split; [exact F | apply io_flag_sound; assumption].
 Qed.
+
+(* AddInitializersToInputsPass (main graph only, fix d64e021) *)
+Lemma add_pass_flag_sound m : snd (add_pass m) = false -> fst (add_pass m) = m.
+Proof.
+  destruct m as [|g rest]; [reflexivity|]. simpl. intros H.
+  apply negb_false_iff in H. apply Nat.eqb_eq in H. rewrite (add_inits_sound g H). reflexivity.
+Qed.
+
+Lemma add_pass_converges m :
+  snd (add_pass (fst (add_pass m))) = false /\ fst (add_pass (fst (add_pass m))) = fst (add_pass m).
+Proof.
+  assert (F : snd (add_pass (fst (add_pass m))) = false).
+  { destruct m as [|g rest]; [reflexivity|]. simpl. rewrite add_inits_idem. reflexivity. }
+  split; [exact F | apply add_pass_flag_sound; exact F].
+Qed.
+
+(* the subgraphs are left alone *)
+Lemma add_pass_tail m : tl (fst (add_pass m)) = tl m.
+Proof. destruct m; reflexivity. Qed.
